@@ -848,6 +848,9 @@ func finish(p *propertySpec, tier string, seed int64, results []*harnessResult, 
 		if k < 5 {
 			k = 5
 		}
+		if hr.spec.ReplayAll {
+			k = len(idx) // every explored path of this harness is replayed natively
+		}
 		for i := 0; i < len(idx) && i < k; i++ {
 			samples = append(samples, sample{hr.spec, hr.okSamples[idx[i]]})
 		}
@@ -1010,6 +1013,19 @@ func finish(p *propertySpec, tier string, seed int64, results []*harnessResult, 
 					// the real code fails on an input the engine considered fine: report it
 					nativeExtra = append(nativeExtra, fmt.Sprintf("%s case %d: native run fails (asserts=%v panic=%q) on witness %v", s.h.Name, s.rec.Case, r.Asserts, firstLine(r.Panic), s.rec.Witness))
 					mismatches++
+					if len(r.Asserts) > 0 {
+						// the real code breaks an assertion on a concrete input: that is a violation with a
+						// replayable witness, whatever the engine thought of the path (the native run may
+						// have taken a goroutine schedule or a map order the engine did not explore)
+						w := s.rec.Witness
+						if w == nil {
+							w = map[string]string{}
+						}
+						allCex = append(allCex, &cexRecord{Harness: s.h.Name, Case: s.rec.Case, Count: 1,
+							Cex: interp.Cex{Label: r.Asserts[0], Kind: "assert", Class: s.rec.Class, Assignment: w,
+								Msg: "fails in the native run of a sampled witness (on a path that the engine passed)"}})
+						reproduced[len(allCex)-1] = true
+					}
 					continue
 				}
 				if !sameTrace(s.rec.Trace, r.Trace) {
